@@ -2,6 +2,7 @@ package compiler
 
 import (
 	"fmt"
+	"strings"
 
 	"github.com/grafana/cog/internal/ast"
 )
@@ -15,8 +16,9 @@ type RenameObject struct {
 
 func (pass *RenameObject) Process(schemas []*ast.Schema) ([]*ast.Schema, error) {
 	visitor := &Visitor{
-		OnObject: pass.processObject,
-		OnRef:    pass.processRef,
+		OnObject:      pass.processObject,
+		OnRef:         pass.processRef,
+		OnConstantRef: pass.processConstantRef,
 	}
 
 	newSchemas, err := visitor.VisitSchemas(schemas)
@@ -59,6 +61,14 @@ func (pass *RenameObject) processObject(visitor *Visitor, schema *ast.Schema, ob
 func (pass *RenameObject) processRef(_ *Visitor, _ *ast.Schema, def ast.Type) (ast.Type, error) {
 	if pass.From.MatchesRef(def.AsRef()) {
 		def.Ref.ReferredType = pass.To
+	}
+
+	return def, nil
+}
+
+func (pass *RenameObject) processConstantRef(_ *Visitor, _ *ast.Schema, def ast.Type) (ast.Type, error) {
+	if def.ConstantReference.ReferredPkg == pass.From.Package && strings.EqualFold(def.ConstantReference.ReferredType, pass.From.Object) {
+		def.ConstantReference.ReferredType = pass.To
 	}
 
 	return def, nil
